@@ -49,7 +49,7 @@ def metrics_for(seq):
   return mm
 
 
-def batches(d, n, sizes, pad_to, seed):
+def batches(d, n, sizes, pad_to, seed, scatter=False):
   rng = np.random.RandomState(seed + 1)
   out = []
   start = 0
@@ -74,6 +74,10 @@ def batches(d, n, sizes, pad_to, seed):
           padv[c:] = rng.randint(0, 2, size=padv[c:].shape)
       pb[k] = padv
     pb[cds.EXAMPLE_MASK_KEY] = np.arange(size) < c
+    if scatter and c >= 1 and size > c:
+      # masked rows anywhere in the batch, not only at its end: the last row is real, padding rows sit before it
+      perm = list(range(c - 1)) + list(range(c, size)) + [c - 1]
+      pb = {k: v[perm] for k, v in pb.items()}
     out.append(pb)
   return out
 
@@ -115,7 +119,7 @@ def check_monoid(inp):
                   f'(partitions {sizes0}/{pad0} and {sizes1}/{pad1})')
   for sizes, pad in inp['partitions']:
     bs = batches(d, n, sizes, pad, seed)
-    for order in (bs, bs[::-1]):
+    for order in (bs, bs[::-1], batches(d, n, sizes, pad, seed, scatter=True)):
       got = models.evaluate_model(model, None, order)
       for k in mm:
         g = np.asarray(got[k])
